@@ -2123,7 +2123,10 @@ evhttp_header_is_valid_value(const char *value)
 
 	while ((p = strpbrk(p, "\r\n")) != NULL) {
 		/* we really expect only one new line */
-		p += strspn(p, "\r\n");
+		if (p[0] == '\r' && p[1] == '\n')
+			p += 2;
+		else
+			p += 1;
 		/* we expect a space or tab for continuation */
 		if (*p != ' ' && *p != '\t')
 			return (0);
